@@ -68,6 +68,18 @@ def materialize(ex, v: Val):
     return v
 
 
+def materialize_set(ex, v: Val):
+    """A generator expression consumed as a SET (set(..), s.update(..), ..) = the set comprehension: no intermediate
+    sequence (and none of its seq.contains axioms) is created."""
+    if v.is_py and isinstance(v.py, tuple) and len(v.py) == 3 and v.py[0] == "genexp":
+        _, gnode, gst = v.py
+        try:
+            return ex.comprehension(gnode, gst, "set")
+        except Unsupported:
+            return ex.comprehension(gnode, gst, "list")
+    return v
+
+
 def sorted_fn(t_in, elem):
     nm = "sorted_" + T._mangle(t_in)
     return z3.Function(nm, t_in.sort(), z3.SeqSort(elem.sort()))
@@ -340,7 +352,7 @@ def _sorted(ex, st, args, kwargs, node):
 
 @builtin("builtins.set", "set(c) = the set of elements of c")
 def _set(ex, st, args, kwargs, node):
-    args = [materialize(ex, a) for a in args]
+    args = [materialize_set(ex, a) for a in args]
     if not args:
         return Val(PYOBJ, None, set(), True)
     (v,) = args
@@ -857,7 +869,9 @@ def _need(args, n, node, name):
 
 def mutate(ex, st, recv: Val, name, args, kwargs, node):
     """In-place container method: returns (new receiver value, call result)."""
-    args = [materialize(ex, a) for a in args]
+    rt_ = recv.ty.inner if isinstance(recv.ty, T.Opt) else recv.ty
+    as_set = (isinstance(rt_, T.Set) or (recv.is_py and isinstance(recv.py, (set, frozenset)))) and name in ("update", "difference_update", "intersection_update", "symmetric_difference_update")
+    args = [materialize_set(ex, a) if as_set else materialize(ex, a) for a in args]
     none = Val.const(None)
     recv = ex.deopt(recv, st, node)
     if name in ("setdefault", "pop", "remove", "discard", "add") and args and isinstance(recv.ty, (T.Dict, T.Set)):
